@@ -1,9 +1,9 @@
 (* C01 layer 2 -- wnomask_correct (guarded) : for every year shape, week start and EVERY list of
-   BYWEEKNO members in -51..51, the mask built by the model of _iterinfo.rebuild marks, on every
+   BYWEEKNO members in -53..53, the mask built by the model of _iterinfo.rebuild marks, on every
    index the iteration can read, exactly the days whose week number (or its negative within the
    week-year) is a member of the list.  Unbounded in the list (union theorem + induction); the
-   finite part (28 shapes x 7 week starts x single members) is the sweep.  The guard excludes
-   exactly +-52, +-53, where the statement is false of the code (wnomask_refuted, F-C01-weekno).
+   finite part (28 shapes x 7 week starts x single members) is the sweep.  The guard is the RFC 5545
+   range -53..53 (before /repo commit 83f8e67 the statement was false for +-52, +-53: F-C01-weekno).
    Also: no IndexError for ANY list of integers. *)
 From Coq Require Import ZArith List Bool Lia.
 From V Require Import base.Cal gen.RrTables rr.RRBase rr.RRNorm rr.RRMasks rr.RROverlay
@@ -48,7 +48,7 @@ Qed.
 
 Lemma shape_mask_build sh wk L :
   shape_mask sh wk L =
-  build ((sh_ywd sh - sh_lylen sh) mod 7) (sh_lylen sh) (sh_ylen sh) (sh_ywd sh) wk (sh_wdm sh) L.
+  build (sh_lylen sh) (sh_nylen sh) (sh_ylen sh) (sh_ywd sh) wk (sh_wdm sh) L.
 Proof. reflexivity. Qed.
 
 Lemma is_ok_ex {A} (r : res A) : is_ok r = true -> exists a, r = Ok a.
@@ -80,7 +80,7 @@ Proof.
   rewrite (H x (or_introl eq_refl)). rewrite IH; [reflexivity|]. intros y Hy. apply H. right. exact Hy.
 Qed.
 
-Definition weekno_safe (n : Z) : bool := (-51 <=? n) && (n <=? 51).
+Definition weekno_safe (n : Z) : bool := (-53 <=? n) && (n <=? 53).
 
 Theorem wnomask_correct_guarded : forall sh wk L,
   In sh all_shapes -> 0 <= wk <= 6 -> forallb weekno_safe L = true ->
@@ -100,7 +100,7 @@ Proof.
      f_op (sh_ylen sh) (sh_ywd sh) wk (sh_wdm sh) (zeros (len0 (sh_ylen sh))) n = Ok a).
   { intros n Hn. rewrite forallb_forall in Sf. apply is_ok_ex. apply Sf.
     specialize (HL n Hn). unfold weekno_safe in HL. apply In_zrange. lia. }
-  destruct (build_union ((sh_ywd sh - sh_lylen sh) mod 7) (sh_lylen sh) (sh_ylen sh) (sh_ywd sh) wk
+  destruct (build_union (sh_lylen sh) (sh_nylen sh) (sh_ylen sh) (sh_ywd sh) wk
               (sh_wdm sh) g h Eg Eh L HA) as (m & Em & Lm & Pm).
   exists m. rewrite shape_mask_build. split; [exact Em|].
   assert (Hylen : sh_ylen sh = 365 \/ sh_ylen sh = 366).
@@ -141,24 +141,10 @@ Proof.
     - eexists. apply f_op_far; lia.
     - eexists. apply f_op_far; lia.
     - rewrite forallb_forall in Sf. apply is_ok_ex. apply Sf. apply In_zrange. lia. }
-  destruct (build_union ((sh_ywd sh - sh_lylen sh) mod 7) (sh_lylen sh) (sh_ylen sh) (sh_ywd sh) wk
+  destruct (build_union (sh_lylen sh) (sh_nylen sh) (sh_ylen sh) (sh_ywd sh) wk
               (sh_wdm sh) g h Eg Eh L HA) as (m & Em & Lm & _).
   exists m. rewrite shape_mask_build. split; assumption.
 Qed.
 
-(* ------------------------------------------------------------------ the guard is necessary *)
-(* common year starting on a Sunday after a leap year (e.g. 1893), wkst = SU: index 364
-   (31 December, a Sunday) starts week 1 of the next year, which has 52 weeks, i.e. it is in week
-   -52; the mask built for [-52] does not mark it *)
-Theorem wnomask_refuted : exists sh wk n i m,
-  In sh all_shapes /\ 0 <= wk <= 6 /\ used_index sh wk i = true /\
-  shape_mask sh wk [n] = Ok m /\
-  nzb (nth (Z.to_nat i) m 0) <> week_matches sh wk i n.
-Proof.
-  exists (mkShape 365 6 366 365), 6, (-52), 364.
-  eexists. split; [vm_compute; tauto|]. split; [lia|]. split; [reflexivity|].
-  split; [vm_compute; reflexivity|]. vm_compute. discriminate.
-Qed.
-
-Example wnomask_guard_example : forallb weekno_safe [1; -1; 20; -51; 51] = true.
+Example wnomask_guard_example : forallb weekno_safe [1; -1; 20; -53; 53; 52; -52] = true.
 Proof. reflexivity. Qed.
